@@ -191,6 +191,9 @@ def execute(case: dict) -> dict:  # noqa: C901, PLR0915
     from ipv8.messaging.serialization import VarLen  # noqa: F401
     from ipv8.peerdiscovery.network import Network
 
+    if case.get("ep_kind") == "tunnel" and case.get("scenario") == "multi" and "offer_all" not in case:
+        # behind the TunnelEndpoint the overlays are also registered as plain listeners: every overlay is offered every datagram
+        case = dict(case, offer_all=True)
     _install_decode_monitor()
     c = Case(case, net=True, first_only=False)
     world, net, loop = c.world, c.net, c.loop
